@@ -1371,4 +1371,182 @@ static void runVec(const VecCase& c, Ctx& ctx)
 }
 VERIF_SUB(vecops, VecCase, genVecCase, runVec);
 
+
+// =================================================================== subsample ==========
+// sub-sampling / gluing: sample, unsample, createReduce(One), copyReduce, glue in every dense storage
+// (+ sparse sources where the API takes an AMatrix), index lists given or inverted
+struct SubCase
+{
+  int kind = 0, nr = 1, nc = 1, api = 0;
+  std::vector<double> vals, vals2;
+  std::vector<int> rows, cols;
+  int invRow = 0, invCol = 0, emptyRows = 0, emptyCols = 0, shiftRow = 0, shiftCol = 0, nr2 = 1, nc2 = 1;
+  template<class A> void io(A& a)
+  {
+    a("kind", kind)("nr", nr)("nc", nc)("api", api)("vals", vals)("vals2", vals2)("rows", rows)("cols", cols)("invRow", invRow)("invCol", invCol)(
+      "emptyRows", emptyRows)("emptyCols", emptyCols)("shiftRow", shiftRow)("shiftCol", shiftCol)("nr2", nr2)("nc2", nc2);
+  }
+};
+static std::vector<int> genSubset(int n, bool allowEmpty)
+{
+  std::vector<int> v;
+  for (int i = 0; i < n; i++) if (G::pct(55)) v.push_back(i);
+  if (v.empty() && !allowEmpty) v.push_back(G::i(0, n - 1));
+  if ((int)v.size() == n && n > 1 && G::pct(60)) v.erase(v.begin() + G::i(0, n - 1));
+  return v;
+}
+static SubCase genSub()
+{
+  SubCase c;
+  c.api = G::i(0, 5); // 0 sample, 1 sym sample, 2 unsample, 3 createReduce, 4 createReduceOne, 5 glue
+  c.kind = G::pick<int>({RECT, RECT, SQGEN, SYM, SPCS, SPEIG});
+  if (c.api == 1) c.kind = SYM;
+  if (c.api >= 3 && c.kind >= SPCS) c.kind = RECT; // createReduce / glue of the factory only know the dense classes
+  c.nr = G::sz(1, 7);
+  c.nc = (c.kind == RECT || c.kind >= SPCS) ? G::sz(1, 7) : c.nr;
+  c.vals = genMatVals(c.nr, c.nc, c.kind, 20);
+  if (c.kind >= SPCS) ensureNonZero(c.vals);
+  c.rows = genSubset(c.nr, false);
+  c.cols = genSubset(c.nc, false);
+  c.invRow = G::i(0, 1);
+  c.invCol = G::i(0, 1);
+  c.emptyRows = G::pct(15);
+  c.emptyCols = G::pct(15);
+  // an inverted list must leave something
+  if (c.invRow && (int)c.rows.size() == c.nr) c.invRow = 0;
+  if (c.invCol && (int)c.cols.size() == c.nc) c.invCol = 0;
+  if (c.api == 5)
+  {
+    c.shiftRow = G::i(0, 1);
+    c.shiftCol = G::i(0, 1);
+    if (!c.shiftRow && !c.shiftCol) c.shiftRow = 1;
+    // glue side by side needs equal numbers of rows, one above the other equal numbers of columns
+    c.nr2 = (c.shiftRow && !c.shiftCol) ? G::sz(1, 5) : (c.shiftCol && !c.shiftRow ? c.nr : G::sz(1, 5));
+    c.nc2 = (c.shiftRow && !c.shiftCol) ? c.nc : G::sz(1, 5);
+    c.kind = RECT;
+    c.vals = genMatVals(c.nr, c.nc, RECT, 20);
+    c.vals2 = genMatVals(c.nr2, c.nc2, RECT, 20);
+  }
+  if (c.api == 2)
+  {
+    // unsample: 'this' is nr x nc, A has the shape of the fetched index sets
+    int na = c.invRow ? c.nr - (int)c.rows.size() : (int)c.rows.size();
+    int nb = c.invCol ? c.nc - (int)c.cols.size() : (int)c.cols.size();
+    if (c.emptyRows) na = c.nr;
+    if (c.emptyCols) nb = c.nc;
+    c.kind = RECT;
+    c.vals = genMatVals(c.nr, c.nc, RECT, 20);
+    c.vals2 = genMatVals(na, nb, RECT, 10);
+    c.nr2 = na;
+    c.nc2 = nb;
+  }
+  return c;
+}
+static std::vector<int> effective(const std::vector<int>& list, int n, bool inv, bool empty)
+{
+  if (empty)
+  {
+    std::vector<int> all((size_t)n);
+    for (int i = 0; i < n; i++) all[(size_t)i] = i;
+    return all; // an empty list means "all" (inversion of "all" is not generated: see below)
+  }
+  if (!inv) return list;
+  std::vector<int> out;
+  for (int i = 0; i < n; i++) if (std::find(list.begin(), list.end(), i) == list.end()) out.push_back(i);
+  return out;
+}
+static VectorInt toVI(const std::vector<int>& v) { return VectorInt(v.begin(), v.end()); }
+static void runSub(const SubCase& c, Ctx& ctx)
+{
+  static const char* apin[] = {"sample", "symSample", "unsample", "createReduce", "createReduceOne", "glue"};
+  std::string kn = kindName(c.kind);
+  ctx.label(std::string("api:") + apin[c.api]);
+  ctx.label("kind:" + kn);
+  Ref r = refFrom(c.nr, c.nc, c.vals);
+  auto m = build(c.kind, r);
+  // empty list + inversion would mean "drop everything": not generated
+  bool invRow = c.invRow && !c.emptyRows, invCol = c.invCol && !c.emptyCols;
+  std::vector<int> er = effective(c.rows, c.nr, invRow, c.emptyRows != 0);
+  std::vector<int> ec = effective(c.cols, c.nc, invCol, c.emptyCols != 0);
+  VectorInt rowsArg = c.emptyRows ? VectorInt() : toVI(c.rows);
+  VectorInt colsArg = c.emptyCols ? VectorInt() : toVI(c.cols);
+  std::string key = std::string(apin[c.api]) + ":" + kn + fmt(":inv%d%d", invRow ? 1 : 0, invCol ? 1 : 0);
+  ctx.at(key);
+  if (c.api == 0)
+  {
+    Ref e((int)er.size(), (int)ec.size());
+    for (size_t i = 0; i < er.size(); i++) for (size_t j = 0; j < ec.size(); j++) e.at((int)i, (int)j) = r.at(er[i], ec[j]);
+    std::unique_ptr<MatrixRectangular> out(MatrixRectangular::sample(m.get(), rowsArg, colsArg, invRow, invCol));
+    if (!out) { ctx.fail(key, "sample() returned null for valid, non-empty index sets"); return; }
+    sameMat(*out, e, ctx, key, "MatrixRectangular::sample");
+  }
+  else if (c.api == 1)
+  {
+    Ref e((int)er.size(), (int)er.size());
+    for (size_t i = 0; i < er.size(); i++) for (size_t j = 0; j < er.size(); j++) e.at((int)i, (int)j) = r.at(er[i], er[j]);
+    std::unique_ptr<MatrixSquareSymmetric> out(MatrixSquareSymmetric::sample(dynamic_cast<MatrixSquareSymmetric*>(m.get()), rowsArg, invRow));
+    if (!out) { ctx.fail(key, "MatrixSquareSymmetric::sample returned null for a valid, non-empty index set"); return; }
+    sameMat(*out, e, ctx, key, "MatrixSquareSymmetric::sample");
+  }
+  else if (c.api == 2)
+  {
+    Ref a = refFrom(c.nr2, c.nc2, c.vals2);
+    if ((int)er.size() != c.nr2 || (int)ec.size() != c.nc2) { ctx.label("unsample-shape-mismatch(skipped)"); return; }
+    MatrixRectangular A(c.nr2, c.nc2);
+    for (int i = 0; i < c.nr2; i++) for (int j = 0; j < c.nc2; j++) A.setValue(i, j, (double)a.at(i, j));
+    Ref e = r;
+    for (size_t i = 0; i < er.size(); i++) for (size_t j = 0; j < ec.size(); j++) e.at(er[i], ec[j]) = a.at((int)i, (int)j);
+    dynamic_cast<MatrixRectangular*>(m.get())->unsample(&A, rowsArg, colsArg, invRow, invCol);
+    sameMat(*m, e, ctx, key, "MatrixRectangular::unsample");
+  }
+  else if (c.api == 3)
+  {
+    // createReduce(x, selRows, selCols, flagKeepRows, flagKeepCols): empty list = all rows (flagKeep assumed true)
+    Ref e((int)er.size(), (int)ec.size());
+    for (size_t i = 0; i < er.size(); i++) for (size_t j = 0; j < ec.size(); j++) e.at((int)i, (int)j) = r.at(er[i], ec[j]);
+    std::unique_ptr<AMatrix> out(MatrixFactory::createReduce(m.get(), rowsArg, colsArg, !invRow, !invCol));
+    if (!out) { ctx.fail(key, "createReduce returned null for valid, non-empty index sets"); return; }
+    sameMat(*out, e, ctx, key, "MatrixFactory::createReduce");
+    if (!ctx.failed())
+    {
+      MatrixRectangular dst((int)er.size(), (int)ec.size());
+      dst.copyReduce(m.get(), toVI(er), toVI(ec));
+      sameMat(dst, e, ctx, "copyReduce:" + kn, "copyReduce");
+    }
+  }
+  else if (c.api == 4)
+  {
+    int ir = c.rows[0], ic = c.cols[0];
+    bool keepR = !invRow, keepC = !invCol;
+    if ((!keepR && c.nr < 2) || (!keepC && c.nc < 2)) { ctx.label("reduceOne-would-be-empty(skipped)"); return; }
+    std::vector<int> rr, cc;
+    for (int i = 0; i < c.nr; i++) if ((i == ir) == keepR) rr.push_back(i);
+    for (int j = 0; j < c.nc; j++) if ((j == ic) == keepC) cc.push_back(j);
+    Ref e((int)rr.size(), (int)cc.size());
+    for (size_t i = 0; i < rr.size(); i++) for (size_t j = 0; j < cc.size(); j++) e.at((int)i, (int)j) = r.at(rr[i], cc[j]);
+    std::unique_ptr<AMatrix> out(MatrixFactory::createReduceOne(m.get(), ir, ic, keepR, keepC));
+    if (!out) { ctx.fail(key, "createReduceOne returned null for a valid request"); return; }
+    sameMat(*out, e, ctx, key, "MatrixFactory::createReduceOne");
+  }
+  else
+  {
+    Ref r2 = refFrom(c.nr2, c.nc2, c.vals2);
+    auto m2 = build(RECT, r2);
+    int onr = c.shiftRow ? c.nr + c.nr2 : std::max(c.nr, c.nr2);
+    int onc = c.shiftCol ? c.nc + c.nc2 : std::max(c.nc, c.nc2);
+    Ref e(onr, onc);
+    for (int i = 0; i < c.nr; i++) for (int j = 0; j < c.nc; j++) e.at(i, j) = r.at(i, j);
+    int r0 = c.shiftRow ? c.nr : 0, c0 = c.shiftCol ? c.nc : 0;
+    for (int i = 0; i < c.nr2; i++) for (int j = 0; j < c.nc2; j++) e.at(r0 + i, c0 + j) = r2.at(i, j);
+    key = fmt("glue:rect:shift%d%d", c.shiftRow, c.shiftCol);
+    ctx.at(key);
+    std::unique_ptr<MatrixRectangular> out(MatrixRectangular::glue(m.get(), m2.get(), c.shiftRow != 0, c.shiftCol != 0));
+    if (!out) { ctx.fail(key, "glue returned null for compatible shapes"); return; }
+    sameMat(*out, e, ctx, key, "MatrixRectangular::glue");
+  }
+  ctx.nontrivial(c.nr != c.nc || invRow || invCol || c.kind >= SPCS || c.api == 5);
+  ctx.sig = Hash().add(c.api).add(c.kind).add(c.nr).add(c.nc).add((int)c.rows.size()).add((int)c.cols.size()).add(c.invRow).add(c.invCol).add(c.shiftRow).add(c.shiftCol).h;
+}
+VERIF_SUB(subsample, SubCase, genSub, runSub);
+
 VERIF_MAIN()
